@@ -1408,6 +1408,8 @@ def gen_C17(rng, tier):
              C.query(0, "slicer", stat="mean", icl="left", ivs=[(pts[0], pts[-1])]), C.query(0, "value_sums"),
              C.query(0, "max"), C.query(0, "sample", xs=pts)]
         base_fl = flav(rng, has_nan(f))
+        if not gaps and k % 4 == 1:      # integer-typed values and labels: products beyond int64
+            base_fl["route"], base_fl["valdtype"] = "from_values", "int"
         for dom in DOMS:
             fl = dict(base_fl)
             fl["dom"] = dom
